@@ -20,5 +20,4 @@ for d in seeded/${1:-}*/; do
     fi
   fi
   git -C /repo worktree remove --force $WT
-  rm -rf .build/mod-* .build/harness-*-????????
 done
